@@ -318,7 +318,7 @@ func VerifyFunc(prog *Program, db *ContractDB, fn *ssa.Function, ct *Contract, c
 		Assume: prefs, Bank: x.b, Expect: "sat", Info: "precondition is satisfiable", Property: propsOf(ct)})
 	x.paths = 1
 	x.work = []*State{st}
-	x.deadline = time.Now().Add(150 * time.Second)
+	x.deadline = time.Now().Add(400 * time.Second)
 	x.run()
 	if len(x.errs) == 0 && ct != nil {
 		// every "assert/apply ... call f#k" clause must have met its anchor on some path
